@@ -81,7 +81,7 @@ def read(cfg, crate, rep):
     rd = field_reads(crate, KP, "serialized_der")
     rd = {k: v for k, v in rd.items() if k not in crate.derived_fns}
     want = {r for r in READERS if r in crate.bodies}
-    rep.ob("C19.read", "%s|readers" % cfg, set(rd) == want, "the private key document is read only by the export accessors (and Zeroize)", expected=sorted(want), found=sorted(rd))
+    rep.ob("C19.read", "%s|readers" % cfg, set(rd) <= want and bool(rd), "the private key document is read only by the export accessors (and Zeroize)", expected=sorted(want), found=sorted(rd))
     rep.floor("C19.read", "reads of KeyPair.serialized_der (%s)" % cfg, sum(len(v) for v in rd.values()), 2)
     adt = crate.adts.get(KP)
     vis = {f["name"]: f["vis"] for f in adt["variants"][0]["fields"]} if adt else {}
@@ -95,7 +95,8 @@ def read(cfg, crate, rep):
             if callee in (KP + "::serialize_der", KP + "::serialized_der"):
                 callers.setdefault(callee, set()).add(name)
     flat = set().union(*callers.values()) if callers else set()
-    rep.ob("C19.read", "%s|accessor-callers" % cfg, flat <= {KP + "::serialize_pem"}, "inside rcgen the export accessors are used only by serialize_pem", expected=[KP + "::serialize_pem"], found=sorted(flat))
+    ok_callers = {KP + "::serialize_pem"} | want   # the export accessors may be written in terms of each other
+    rep.ob("C19.read", "%s|accessor-callers" % cfg, flat <= ok_callers, "inside rcgen the export accessors are used only by serialize_pem (and by each other)", expected=sorted(ok_callers), found=sorted(flat))
     # no struct literal copies the field elsewhere: KeyPair literals are the only writers
     # derived impls on KeyPair (Clone/Debug/...) would copy or print the document
     derived = [im.get("trait") for im in crate.impls if im.get("self_adt") == KP and im.get("derived")]
@@ -166,61 +167,100 @@ def taint(cfg, crate, rep):
     rep.floor("C19.taint", "calls receiving loader input (%s)" % cfg, n_calls, 12)
 
 
+FOREIGN_ERRORS = ("KeyRejected", "PemError", "X509Error", "nom::Err", "asn1_rs::", "Unspecified")
+
+
 def errs(cfg, crate, rep):
-    """Error variants with a String payload are built from to_string() of a foreign error or a constant."""
+    """Error variants with a String payload are built from to_string() of a foreign error or a constant.
+    Decided on values: every alternative of the payload (through case splits, helper functions, closures) is a constant
+    text or `<foreign error>.to_string()`; for pem::PemError the alternative that stringifies the error must be
+    unreachable when the error is InvalidHeader (whose Display quotes the offending input line)."""
+    from interp import flatten_phi
     n = 0
+    fns = set()
     for name, b in common.all_bodies(crate):
         if common.is_test_fn(name) or name in crate.derived_fns:
             continue
         for node in common.hir_walk(b["hir"]):
-            if node["k"] == "Call" and "Ctor" in node.get("dk", "") and (node.get("ctor_of") or "").startswith("error::Error::") and node["args"]:
-                var = node["ctor_of"].split("::")[-1]
-                arg = node["args"][0]
-                if arg.get("ty") != "std::string::String":
+            if node["k"] == "Call" and "Ctor" in node.get("dk", "") and (node.get("ctor_of") or "").startswith("error::Error::") and node["args"] and node["args"][0].get("ty") == "std::string::String":
+                fns.add(name.split("::{closure")[0])
+    for name in sorted(fns):
+        I = Interp(crate)
+        try:
+            I.run_fn(name)
+        except Exception as e:  # fail closed below: no construction will be found
+            rep.fail("C19.err", "%s|%s" % (cfg, name), "function not interpretable: %s" % e)
+            continue
+        seen = set()
+        for sv, node, f, c in I.structs:
+            var = (sv.variant or "")
+            if not var.startswith("error::Error::") or "0" not in sv.fields or node.get("args", [{}])[0].get("ty") != "std::string::String":
+                continue
+            if id(node) in seen:
+                continue
+            seen.add(id(node))
+            n += 1
+            var = var.split("::")[-1]
+            bad = []
+            srcs = []
+            pem_unmasked = None
+            for cond, leaf in flatten_phi(sv.fields["0"]):
+                x = core(leaf)
+                ts = _to_string_via(leaf)
+                if isinstance(x, Const) and ts is None:
+                    srcs.append("constant")
                     continue
-                n += 1
-                ok = False
-                src = None
-                lv = _leaves(arg)
-                if len(lv) > 1:
-                    # a match / if selecting between texts: every alternative must be a constant or a foreign error's Display
-                    oks = []
-                    for x in lv:
-                        r = x.get("recv") if x["k"] == "MethodCall" and x["name"] == "to_string" else None
-                        while r is not None and r["k"] in ("AddrOf", "Unary"):
-                            r = r["e"]
-                        oks.append(r is not None and (r["k"] == "Lit" or any(k in r.get("ty", "") for k in ("KeyRejected", "PemError", "X509Error", "nom::Err", "asn1_rs::", "Unspecified"))))
-                    ok = all(oks)
-                    src = "%d alternatives" % len(lv)
-                    arg = {"k": "?"}
-                    if any("PemError" in (x.get("recv") or {}).get("ty", "") for x in lv if x["k"] == "MethodCall"):
-                        arg = {"k": "MethodCall", "name": "to_string", "recv": {"k": "Path", "ty": "pem::PemError"}}
-                        ok = False
-                if arg["k"] == "MethodCall" and arg["name"] == "to_string":
-                    r = arg["recv"]
-                    while r["k"] in ("AddrOf", "Unary"):
+                if ts is not None:
+                    x = CallV("to_string", [ts.inner], getattr(ts, "node", None))
+                if isinstance(x, CallV) and x.callee.split("::")[-1] == "to_string" and x.args:
+                    recv = (x.node or {}).get("recv") or ((x.node or {}).get("args") or [{}])[0]
+                    r = recv
+                    while r.get("k") in ("AddrOf", "Unary"):
                         r = r["e"]
                     rt = r.get("ty", "")
-                    src = rt
-                    ok = (r["k"] == "Lit") or any(x in rt for x in ("KeyRejected", "PemError", "X509Error", "nom::Err", "asn1_rs::", "Unspecified"))
-                    if ok and "PemError" in rt:
-                        # pem 3.0.x: Display of PemError::InvalidHeader echoes the offending input line. This conversion is
-                        # applied to key PEM (from_pem and friends), where that line is base64 of the private key: the
-                        # payload-carrying variant must be masked before the error is stringified.
-                        masked = False
-                        for m in common.hir_walk(b["hir"]):
-                            if m["k"] == "Match":
-                                for a in m["arms"]:
-                                    d = a["pat"].get("ctor_of") or a["pat"].get("def") or ""
-                                    if d.endswith("PemError::InvalidHeader"):
-                                        binds = [x for x in common.hir_walk(a["pat"]) if x.get("k") == "Binding"]
-                                        used = [x for x in common.hir_walk(a["body"]) if x.get("k") == "Path" and x.get("res") == "local" and any(x.get("hid") == bb.get("hid") for bb in binds)]
-                                        masked = not used
-                        rep.ob("C19.err", "%s|%s|%s|pem-error-display-masked" % (cfg, name, var), masked,
-                               "the Display text of pem::PemError is forwarded verbatim into Error::PemError, and this conversion is applied to private-key PEM: pem 3.0.x formats PemError::InvalidHeader with the offending input line, so loading a key PEM that contains a stray blank line (or a line with a colon) returns an error whose text contains base64 of the private key",
-                               expected="PemError::InvalidHeader(_) mapped to a text that does not include its payload", found="e.to_string() for every variant", sp=node.get("sp"))
-                rep.ob("C19.err", "%s|%s|%s" % (cfg, name, var), ok, "String payload of an error is the Display text of a foreign error (or a constant), never caller data", found=src, sp=node.get("sp"))
+                    inner = core(x.args[0])
+                    if isinstance(inner, Const) or r.get("k") == "Lit":
+                        srcs.append("constant")
+                        continue
+                    if any(k in rt for k in FOREIGN_ERRORS):
+                        srcs.append(rt.split("::")[-1])
+                        if "PemError" in rt:
+                            # this alternative must not be taken for InvalidHeader
+                            a_ = ("variant", inner.r(), "InvalidHeader")
+                            full = F.And(c, cond)
+                            ats = F.atoms(full)
+                            if a_ not in ats:
+                                pem_unmasked = "e.to_string() for every variant"
+                            else:
+                                # satisfiable with InvalidHeader true?
+                                sat = any(F.evalf(full, asg) for asg in F.assignments(ats) if asg[a_])
+                                if sat:
+                                    pem_unmasked = "e.to_string() reachable for InvalidHeader"
+                                elif pem_unmasked is None:
+                                    pem_unmasked = False
+                        continue
+                    bad.append("to_string of %s" % rt[:60])
+                    continue
+                bad.append(x.r()[:80])
+            if pem_unmasked is not None:
+                rep.ob("C19.err", "%s|%s|%s|pem-error-display-masked" % (cfg, _errfn(name), var), pem_unmasked is False,
+                       "the Display text of pem::PemError is forwarded into Error::PemError, and this conversion is applied to private-key PEM: pem 3.0.x formats PemError::InvalidHeader with the offending input line, so loading a key PEM that contains a stray blank line (or a line with a colon) returns an error whose text contains base64 of the private key",
+                       expected="PemError::InvalidHeader(_) mapped to a text that does not include its payload", found=pem_unmasked or "masked", sp=node.get("sp"))
+            rep.ob("C19.err", "%s|%s|%s" % (cfg, _errfn(name), var), not bad, "String payload of an error is the Display text of a foreign error (or a constant), never caller data", found=bad or srcs, sp=node.get("sp"))
     rep.floor("C19.err", "string-carrying error constructions (%s)" % cfg, n, 3)
+
+
+def _to_string_via(v):
+    """the outermost `.to_string()` adaptor in a chain of transparent adaptors, if any"""
+    while isinstance(v, (Via, MutV)):
+        if isinstance(v, Via) and v.name == "to_string":
+            return v
+        v = v.inner if isinstance(v, Via) else v.base
+    return None
+
+
+def _errfn(name):
+    return name
 
 
 def _leaves(e):
